@@ -1,4 +1,11 @@
-"""C08 cases: powers and integer logarithms."""
+"""C08 cases: powers and integer logarithms.
+
+Blocks: random main loop over every configuration of the tier (all forms, both signs, both build modes; the
+many-digit instantiations get fewer rounds, never none) / exact powers of multi-digit u8-digit bases / deterministic
+root-straddle sweep (every form at the last representable and first unrepresentable power) / every bit length for the
+logarithm estimates / `_gen_huge`: the 8192-bit instantiation of every digit type (graded by cost) / thorough:
+complete 8-bit enumeration and the all-widths sweep."""
+import math
 from .common import *
 from . import widthsweep as _ws
 
@@ -6,14 +13,19 @@ HARNESS_BINS_THOROUGH = ["widths"]
 
 
 def iroot(x, k):
-    lo, hi = 0, 1 << (x.bit_length() // k + 1)
-    while lo < hi:
-        mid = (lo + hi + 1) // 2
-        if mid ** k <= x:
-            lo = mid
-        else:
-            hi = mid - 1
-    return lo
+    """floor of the k-th root (exact integer Newton iteration from above; bisection costs seconds at 8192 bits)"""
+    if x < 2 or k == 1:
+        return x
+    if k == 2:
+        return math.isqrt(x)
+    r = 1 << -(-x.bit_length() // k)              # >= the root
+    while True:
+        t = ((k - 1) * r + x // r ** (k - 1)) // k
+        if t >= r:
+            break
+        r = t
+    assert r ** k <= x < (r + 1) ** k
+    return r
 
 
 def pow_case(rng, w, n, signed):
@@ -21,7 +33,18 @@ def pow_case(rng, w, n, signed):
     W = w * n
     M = 1 << W
     H = M >> 1
-    c = rng.randrange(12)
+    c = rng.randrange(14)
+    if c >= 12:
+        # a GENERAL base (odd / multi-digit / any 2-adic valuation) with an exponent far above BITS: the wrapped
+        # value a^e mod 2^BITS is a dense pattern (not 0 / +-1 / one bit as with the tiny and 2^k bases), the loop
+        # runs all 32 rounds, and the overflow flag must stay set through ~60 further wrapping multiplications
+        a = rng.choice([3, M - 3, 5, M - 5, rng.randrange(M) | 1, rng.randrange(M) | 1, value(rng, w, n)[1] | 1,
+                        value(rng, w, n)[1], rng.randrange(1, 1 << w) | 1, (M >> 1) + 1, (M >> 1) - 1,
+                        pat(rng.randrange(1, M) << rng.randrange(1, 4), W)])
+        e = rng.choice([1 << 31, (1 << 32) - 1, (1 << 32) - 2, (1 << 31) + 1, (1 << 31) - 1, 0x80000001, 0xAAAAAAAA,
+                        0x55555555, 1 << 16, (1 << 16) + 1, (1 << 24) - 1, rng.randrange(1 << 32), rng.randrange(1 << 32),
+                        rng.randrange(W + 1, max(W + 2, 1 << 20))])
+        return "general-base-huge-exp", a, e
     if c == 0:
         return "tiny-base-huge-exp", rng.choice([0, 1, M - 1, 2, M - 2]), rng.choice([0, 1, 2, 3, W - 1, W, W + 1, (1 << 32) - 1, (1 << 32) - 2, (1 << 31), rng.randrange(1 << 32)])
     if c == 1:
@@ -94,13 +117,31 @@ def log_case(rng, w, n, signed):
     return t, a, b
 
 
-def _gen_main(rng, tier):
+POW_FORMS = ("overflowing_pow", "checked_pow", "wrapping_pow", "saturating_pow", "strict_pow", "pow")
+
+
+def pow_lines(form, s, cfg, a, e):
+    """request line(s) of one power form (`pow` depends on the build mode: one line per mode)"""
+    if form == "pow":
+        return [f"pow {s}{cfg} dbg {hx(a)} {e}", f"pow {s}{cfg} rel {hx(a)} {e}"]
+    return [f"{form} {s}{cfg} {hx(a)} {e}"]
+
+
+def _reps(tier, w, n):
+    """repetitions of the random main loop: the Lean model multiplies digit lists in O(n^2), so the
+    instantiations with many digits get fewer (but never zero) rounds"""
     reps = 100 if tier == "thorough" else 14
+    if n > 100:
+        return 2
+    if n > 40:
+        return max(3, reps // (6 if w * n > 2048 else 2))
+    return reps
+
+
+def _gen_main(rng, tier):
     for cfg in cfgs(tier):
         w, n = wn(cfg)
-        if n > 40:
-            continue
-        for _ in range(reps):
+        for _ in range(_reps(tier, w, n)):
             for s in "ui":
                 for op in ("overflowing_pow", "checked_pow", "wrapping_pow", "saturating_pow", "strict_pow"):
                     t, a, e = pow_case(rng, w, n, s == "i")
@@ -137,13 +178,17 @@ def _gen_main(rng, tier):
     # limits 2^(BITS-1) and 2^BITS, both signs: a^e just below / at / just above MAX, |MIN| and 2^BITS in every
     # configuration (deterministic; the random `straddle` class hit these only a few times per run, and seeded
     # change C08-r5m1 needs a negative base whose odd power exceeds |MIN| by less than one top-digit unit)
+    rot = 0
     for cfg in cfgs(tier):
         w, n = wn(cfg)
-        if n > 40:
-            continue
         W = w * n
         M = 1 << W
-        for e in (2, 3, 4, 5, 6, 7, 9, 11, 15, 16, 17, 31, 33, 63, 65, W - 1, W):
+        exps = (2, 3, 4, 5, 6, 7, 9, 11, 15, 16, 17, 31, 33, 63, 65, W - 1, W)
+        if n > 100:
+            exps = (2, 3, 7, 16)                    # few multiplications per case (the model is O(n^2) per product)
+        elif n > 40:
+            exps = (2, 3, 5, 7, 16, 17, 33, W - 1, W)
+        for e in exps:
             if e < 2:
                 continue
             for lim in (M >> 1, M):
@@ -158,6 +203,19 @@ def _gen_main(rng, tier):
                         yield f"overflowing_pow i{cfg} {hx(b % M)} {e}", "root-straddle"
                         yield f"checked_pow i{cfg} {hx(pat(-b, W))} {e}", "root-straddle"
                         yield f"saturating_pow i{cfg} {hx(pat(-b, W))} {e}", "root-straddle"
+                    if d in (0, 1):
+                        # the other forms (they are separately written loops / separately written sign logic) at the
+                        # same boundaries: r^e is the last representable power (d = 0: r^e <= lim, so for lim = 2^BITS
+                        # and 2^(BITS-1) the equality cases a^e = 2^BITS, a^e = |MIN| occur), (r+1)^e the first
+                        # unrepresentable one.  Two forms per base and sign variant, rotating, so that every form
+                        # meets every (exponent, limit, side) combination across the configurations.
+                        for s, a in (("u", b % M), ("i", pat(-b, W)), ("i", b % M)):
+                            for _ in range(2):
+                                form = POW_FORMS[1 + rot % 5]
+                                rot += 1
+                                for l in pow_lines(form, s, cfg, a, e):
+                                    yield l, "root-straddle-forms"
+                        rot += 1
     # every bit length: 2^b - 1 and 2^(b-1) (logarithm estimates from the bit length go wrong only at a few lengths)
     for cfg in (["64x16", "8x40"] if tier != "thorough" else ["64x16", "64x128", "8x40", "32x10"]):
         w, n = wn(cfg)
@@ -179,11 +237,170 @@ def _gen_main(rng, tier):
                     yield f"checked_ilog {s}8x1 {hx(a)} {hx(b)}", "exhaustive8"
 
 
+# ---------------------------------------------------------------------------------------------------------------
+# the widest in-scope instantiations (4096 and 8192 bits, every digit type): every power form and every logarithm
+# form, signed and unsigned, both build modes.  The Lean model multiplies digit lists in O(n^2) (0.1 s per product and
+# 3.5 s per full-size small-base logarithm at 8x1024; 25 - 60 times less at 64x128), so the case list is graded:
+#   0  core: every power form x {last representable, first unrepresentable} power with exponents 2 / 3, both signs
+#      (negative base: odd exponent -> MIN side, even exponent -> MAX side; the kind rotates over the forms), the
+#      trivial exits, the ilog2 family, the None / panic guards, logarithms with multi-digit bases (few levels)
+#   1  + exponents 5 and 16, extreme bases (MIN, MAX, -1, M-1, dense), one full-size small-base logarithm per sign
+#   2  + all three sign kinds for every form, exponents 7, 31, (+-2)^(BITS-1), (+-2)^BITS, general bases with exponents
+#      up to 2^32-1, full-size logarithms at exact powers of 10 / 3 and of MAX to base B+1
+#   3  (thorough only) + exponents 17, BITS-1, BITS for root-straddling bases, more full-size logarithms
+HUGE_LEVEL = {"quick": {"8x1024": 0, "16x512": 0, "32x256": 1, "64x128": 2},
+              "thorough": {"8x1024": 1, "16x512": 2, "32x256": 3, "64x128": 3, "64x64": 3}}
+
+
+def _huge_pow(rng, cfg, level):
+    w, n = wn(cfg)
+    W = w * n
+    M = 1 << W
+    H = M >> 1
+    rot = {"u": 0, "i": 0}
+
+    def emit(s, a, e, tag, form=None):
+        if form is None:
+            form = POW_FORMS[rot[s] % 6]
+            rot[s] += 1
+        return [(l, tag) for l in pow_lines(form, s, cfg, pat(a, W), e)]
+
+    # core: every form, both sides of the limit
+    for fi, form in enumerate(POW_FORMS):
+        e = 2 + (fi % 2 if level >= 1 else 0)
+        r = iroot(M - 1, e)
+        for d in (0, 1):
+            yield from emit("u", r + d, e, "huge-straddle", form)
+        # signed: kind 0 = negative base, odd exponent (limit |MIN| = 2^(BITS-1), reached exactly or exceeded),
+        #         kind 1 = positive base (limit MAX), kind 2 = negative base, even exponent (limit MAX)
+        for kind in ((0, 1, 2) if level >= 2 else (fi % 3, )):
+            e = (3, 2 + fi % 2, 2)[kind]
+            r = iroot(H if kind == 0 else H - 1, e)
+            for d in ((0, 1) if level >= 1 else (fi % 2, )):
+                yield from emit("i", (r + d) if kind == 1 else -(r + d), e, "huge-straddle", form)
+    # the loops' trivial exits and the extreme bases
+    for s in "ui":
+        for a, e in ((0, 0), (M - 1, 0), (H, 1)) + (((M - 1, 1), (0, 1), (1, 2), (0, 3)) if level >= 1 else ()):
+            yield from emit(s, a, e, "huge-trivial")
+    if level >= 1:
+        dense = huge_values(rng, cfg)
+        for s in "ui":
+            for a, e in ((M - 1, 2), (M - 1, 3), (H, 2), (H + 1, 3), (dense[1], 2), (M - (1 << (W // 2 - 1)), 2)) + \
+                    (((H - 1, 2), (dense[4], 2), (1 << (W // 2 - 1), 2), ((1 << (W // 2 - 1)) + 1, 2)) if level >= 2 else ()):
+                yield from emit(s, a, e, "huge-extreme")
+        for e in ((5, 16), (5, 7, 16, 31), (5, 7, 16, 17, 31, W - 1, W))[level - 1]:
+            for lim, s, sg in ((M, "u", 1), (H, "i", -1), (H, "i", 1)):
+                r = iroot(lim, e)
+                for d in (0, 1):
+                    if r + d >= 2:
+                        yield from emit(s, sg * (r + d), e, "huge-straddle")
+    if level >= 2:
+        # exactly MIN / exactly 2^(BITS-1) / exactly 2^BITS from +-2
+        for s in "ui":
+            for a, e in ((-2, W - 1), (2, W - 1), (2, W), (-4, W // 2)):
+                yield from emit(s, a, e, "huge-pow2base")
+        # general bases, exponents far above BITS (64 products per case)
+        for s in "ui":
+            for _ in range(2):
+                a = rng.choice([3, M - 3, rng.randrange(M) | 1, rng.randrange(M) | 1, rng.randrange(M) << 1])
+                e = rng.choice([(1 << 32) - 1, 1 << 31, (1 << 31) + 1, rng.randrange(1 << 32), rng.randrange(W, 1 << 20)])
+                yield from emit(s, a, e, "huge-general-base-huge-exp")
+
+
+def ilog_exact(x, b):
+    """greatest k with b^k <= x"""
+    k, p = 0, b
+    while p <= x:
+        k += 1
+        p *= b
+    return k
+
+
+def _huge_log(rng, cfg, level):
+    w, n = wn(cfg)
+    W = w * n
+    M = 1 << W
+    H = M >> 1
+    B = 1 << w
+    rot = 0
+    for s in "ui":
+        lim = H if s == "i" else M
+        # ilog2 family: no division involved (but `bits()` alone costs the model ~20 ms at 1024 digits): per value three
+        # of the six forms, alternating between (checked_ilog2, ilog2 dbg, ilog(.., 2) dbg) and the other three
+        for x in (0, 1, lim - 1, lim >> 1, (lim >> 1) - 1, 1 << (W - w), (1 << (W - w)) - 1, M - 1, H) + \
+                ((2, 3, (lim >> 1) + 1, H + 1, B - 1, B) if level >= 1 else ()):
+            forms = (f"checked_ilog2 {s}{cfg} {hx(x)}", f"checked_ilog {s}{cfg} {hx(x)} 2", f"ilog2 {s}{cfg} dbg {hx(x)}",
+                     f"ilog2 {s}{cfg} rel {hx(x)}", f"ilog {s}{cfg} dbg {hx(x)} 2", f"ilog {s}{cfg} rel {hx(x)} 2")
+            for i in (0, 2, 4):
+                yield forms[(rot + i) % 6], "huge-ilog2"
+            rot += 1
+        # None / panic exactly when self <= 0 or base < 2, and the shortcuts base > self (no recursion: cheap).
+        # M-1, H are -1, MIN for the signed types and huge positive numbers for the unsigned ones
+        neg = ((M - 1, 10), (H, 10), (H + 1, 3), (lim - 1, M - 1), (lim - 1, H), (5, M - 2)) if s == "i" else ((M - 2, M - 1), (H, M - 1))
+        for x, b in neg + ((0, 10), (lim - 1, 0), (lim - 1, 1), (2, 3), (3, 3), (lim - 1, lim - 1), (lim - 2, lim - 1)) + \
+                (((0, 0), (1, 3), (9, 10), (10, 10), (B - 1, B), (B, B)) if level >= 1 else ()):
+            yield f"checked_ilog {s}{cfg} {hx(x)} {hx(b)}", "huge-log-guards"
+            yield f"ilog {s}{cfg} {('dbg', 'rel')[rot % 2]} {hx(x)} {hx(b)}", "huge-log-guards"
+            rot += 1
+        for x in (0, 9, 10) + ((M - 1, H) if s == "i" else ()) + ((1, 99, 100) if level >= 1 else ()):
+            yield f"checked_ilog10 {s}{cfg} {hx(x)}", "huge-log-guards"
+            yield f"ilog10 {s}{cfg} {('dbg', 'rel')[rot % 2]} {hx(x)}", "huge-log-guards"
+            rot += 1
+    # real logarithms: (x, base) with x = base^k + {-1, 0} (the answer changes between the two) or x = MAX
+    rot = 0
+    for s in "ui":
+        lim = H if s == "i" else M
+        cases = []
+        # multi-digit bases with extreme digits of about BITS/3 and BITS/8 bits: 2 - 4 levels of squaring / division
+        for frac in (3, 8):
+            dl = max(1, n // frac)
+            b = sum(rng.choice([0, B - 1, B // 2, rng.randrange(B)]) << (w * i) for i in range(dl - 1))
+            b = max(2, b | (rng.choice([1, B // 2, B - 1]) << (w * (dl - 1))))
+            k = ilog_exact(lim - 1, b)
+            if level == 0 and frac == 8:
+                cases += [(b ** k - (s == "u"), b)]
+            else:
+                cases += [(b ** k - 1, b), (b ** k, b)]
+        k10 = len(str(lim - 1)) - 1
+        k3 = ilog_exact(lim - 1, 3)
+        if level == 1:
+            # one full-size logarithm with a one-digit base (about log2(BITS) levels of squaring / division)
+            cases += [(10 ** k10, 10)] if s == "u" else [(3 ** k3 - 1, 3)]
+        if level >= 2:
+            cases += [(10 ** k10, 10), (10 ** k10 - 1, 10), (3 ** k3 - 1, 3), (3 ** k3, 3), (lim - 1, B + 1)]
+        if level >= 3:
+            cases += [(lim - 1, 10), (lim - 1, B - 1), ((B + 1) ** ilog_exact(lim - 1, B + 1), B + 1), (lim - 1, 1 << (w - 1)),
+                      (lim - 1, 3), (lim - 1, 7), (10 ** (k10 // 2) - 1, 10)]
+        for x, b in cases:
+            if level == 1 and b == 10:
+                pick = [("checked_ilog10", "ilog10 dbg", "ilog rel", "checked_ilog", "ilog10 rel", "ilog dbg")[rot % 6]]
+            elif b == 10:
+                # the ilog10 family and the generic family with base ten: one checked + one panicking form, alternating
+                pick = [("checked_ilog10", "ilog dbg", "checked_ilog", "ilog10 rel", "checked_ilog10", "ilog rel", "checked_ilog", "ilog10 dbg")[(2 * rot) % 8 + i] for i in (0, 1)]
+            elif level == 0 or (level == 1 and b < B):
+                pick = [("checked_ilog", "ilog dbg", "ilog rel")[rot % 3]]
+            else:
+                pick = ["checked_ilog", ("ilog dbg", "ilog rel")[rot % 2]]
+            rot += 1
+            for f in pick:
+                op, *mode = f.split(" ")
+                args = " ".join(mode + [hx(x)] + ([hx(b)] if not op.endswith("10") else []))
+                yield f"{op} {s}{cfg} {args}", "huge-log"
+
+
+def _gen_huge(rng, tier):
+    for cfg in HUGE_CFGS + (["64x64"] if tier == "thorough" else []):
+        level = HUGE_LEVEL[tier][cfg]
+        yield from _huge_pow(rng, cfg, level)
+        yield from _huge_log(rng, cfg, level)
+
+
 def ROUTE(line):
     return _ws.route(line, "c08")
 
 
 def gen(rng, tier):
     yield from _gen_main(rng, tier)
+    yield from _gen_huge(rng, tier)
     if tier == "thorough":
         yield from _ws.ilog(rng)
